@@ -30,7 +30,7 @@ type DictCase struct {
 	Wide    bool   `json:"wide,omitempty"` // thorough universe of 8 terms
 	Set     int    `json:"set"`            // subset mask over dictUniverse
 	Pattern int    `json:"pattern"`        // 0: every term in exactly one doc; 1: alternating 1 / 2-3 docs; 2: every term in 2 docs
-	Prov    string `json:"prov"`           // built | opened | merged1 | merged2
+	Prov    string `json:"prov"`           // built | opened | merged1 | merged2 | updated | updatedR
 }
 
 func universeOf(c DictCase) []string {
@@ -359,12 +359,12 @@ func init() {
 	run.Register(&run.Def{
 		ID:          "C08",
 		Level:       "exploration",
-		Rule:        "bounded-exhaustive: every subset of a 6-term universe (empty term, a, ab, b, ba, 2-byte UTF-8) as the term set of a field x 4 postings patterns (all single-document; alternating 1 / 2-3 documents; all 2 documents; all single-document with frequency 0, i.e. no norm stored) x provenance {built, re-opened, merged once, merged twice} (merging turns single-document frequency-1 terms into single-hit dictionary entries, so the SEQUENCE of encodings met by the iterator's reused scratch list ranges over all patterns) x 25 automata (nil=match-all, exact(u) for every u and an absent term, 5 prefixes incl. a partial UTF-8 byte, 7 vellum regular expressions, 4 vellum Levenshtein distance-1 automata, never-matching) x EVERY pair of range bounds over 10 values (absent, empty key, equal to / between / below / above existing terms), incl. the degenerate ranges start >= end and [x, \"\") which hold nothing. Oracle: ascending byte order, exactly the accepted terms in range (acceptance decided independently by string functions, Go regexp and an edit-distance function), DictEntry.Count == postings size of that term, Contains for every term of the universe, Cardinality; several live iterators of one dictionary object (every ordered pair over 16 (automaton, range) configurations, stepped in lock step and nested) each return their own sequence; fields without dictionary (absent field, synonym field) give empty results. Non-trivial = term set with >= 2 terms.",
+		Rule:        "bounded-exhaustive: every subset of a 6-term universe (empty term, a, ab, b, ba, 2-byte UTF-8) as the term set of a field x 4 postings patterns (all single-document; alternating 1 / 2-3 documents; all 2 documents; all single-document with frequency 0, i.e. no norm stored) x provenance {built, re-opened, merged once, merged twice, merged once and then merged - in either order - with a segment holding a new version of document 0 while the old version is deleted} (merging turns single-document frequency-1 terms into single-hit dictionary entries, so the SEQUENCE of encodings met by the iterator's reused scratch list ranges over all patterns) x 25 automata (nil=match-all, exact(u) for every u and an absent term, 5 prefixes incl. a partial UTF-8 byte, 7 vellum regular expressions, 4 vellum Levenshtein distance-1 automata, never-matching) x EVERY pair of range bounds over 10 values (absent, empty key, equal to / between / below / above existing terms), incl. the degenerate ranges start >= end and [x, \"\") which hold nothing. Oracle: ascending byte order, exactly the accepted terms in range (acceptance decided independently by string functions, Go regexp and an edit-distance function), DictEntry.Count == postings size of that term, Contains for every term of the universe, Cardinality; several live iterators of one dictionary object (every ordered pair over 16 (automaton, range) configurations, stepped in lock step and nested) each return their own sequence; fields without dictionary (absent field, synonym field) give empty results. Non-trivial = term set with >= 2 terms.",
 		Assumptions: batchAssumptions,
-		Bounds:      map[string]string{"quick": "all 64 term sets x 4 patterns x 4 provenances x 25 automata x 100 ranges", "thorough": "additionally all 256 subsets of an 8-term universe (adds a longer term sharing a prefix and a term above all others) x the same patterns, provenances, automata and ranges"},
+		Bounds:      map[string]string{"quick": "all 64 term sets x 4 patterns x 6 provenances x 25 automata x 100 ranges", "thorough": "additionally all 256 subsets of an 8-term universe (adds a longer term sharing a prefix and a term above all others) x the same patterns, provenances, automata and ranges"},
 		New:         func() interface{} { return &DictCase{} },
 		Gen: func(tier string, emit func(interface{})) {
-			for _, prov := range []string{"built", "opened", "merged1", "merged2"} {
+			for _, prov := range []string{"built", "opened", "merged1", "merged2", "updated", "updatedR"} {
 				for pattern := 0; pattern < 4; pattern++ {
 					for set := 0; set < 1<<uint(len(dictUniverse)); set++ {
 						emit(DictCase{Set: set, Pattern: pattern, Prov: prov})
@@ -403,7 +403,7 @@ func init() {
 			}
 			cleanup = append(cleanup, func() { seg.Close() })
 			cur := seg
-			merges := map[string]int{"built": 0, "opened": 0, "merged1": 1, "merged2": 2}[c.Prov]
+			merges := map[string]int{"built": 0, "opened": 0, "merged1": 1, "merged2": 2, "updated": 1, "updatedR": 1}[c.Prov]
 			if c.Prov == "opened" {
 				o, path, err := zx.PersistOpen(seg)
 				cleanup = append(cleanup, func() { zx.Remove(path) })
@@ -428,6 +428,43 @@ func init() {
 				}
 				cleanup = append(cleanup, func() { o.Close() })
 				cur = o
+			}
+			if strings.HasPrefix(c.Prov, "updated") {
+				// document 0 is written again (new segment u) after its segment was merged:
+				// merge of the merged segment, with document 0 deleted, and u
+				ub := spec.Batch{Docs: []spec.Doc{b.Docs[0]}}
+				u, _, err := zx.Build(ub, 1026)
+				if err != nil {
+					a.Violation("build-error", err.Error())
+					return
+				}
+				cleanup = append(cleanup, func() { u.Close() })
+				del := make([]bool, exp.Count)
+				del[0] = true
+				segs, refs, drops := []segment.Segment{cur, u}, []*ref.Content{exp, ref.FromBatch(ub)}, [][]bool{del, nil}
+				if c.Prov == "updatedR" {
+					segs, refs, drops = []segment.Segment{u, cur}, []*ref.Content{refs[1], refs[0]}, [][]bool{nil, del}
+				}
+				bms := make([]*roaring.Bitmap, 2)
+				for i, d := range drops {
+					if d != nil {
+						bms[i] = zx.Bitmap(d, true)
+					}
+				}
+				path, _, _, err := zx.Merge(segs, bms, 1026)
+				cleanup = append(cleanup, func() { zx.Remove(path) })
+				if err != nil {
+					a.Violation("merge-error", err.Error())
+					return
+				}
+				o, err := zx.Plugin.Open(path)
+				if err != nil {
+					a.Violation("open-error", err.Error())
+					return
+				}
+				cleanup = append(cleanup, func() { o.Close() })
+				cur = o
+				exp, _ = ref.FromMerge(refs, drops)
 			}
 			if len(exp.Postings["f"]) >= 2 {
 				a.NonTrivial(jsonStr(c))
